@@ -27,3 +27,7 @@ func RunWorker(spec string) int {
 	}
 	return 2
 }
+
+// SingleStepReplay lists the properties whose witnesses are single Steps that
+// vcheck -replay re-executes directly.
+var SingleStepReplay = map[string]bool{"C01": true, "C05": true, "C14": true}
